@@ -7,6 +7,10 @@
 //! an `RtpObserver` or a bridge target's capture socket is judged with the independent SRTP model
 //! `refimpl::srtp` and the harness' own RTP/RTCP byte builders.
 //!
+//! Cross-mode bridges: auxiliary plain source transports (`srtp_required = false`) bridge INTO the required
+//! transport under test / required targets and receive cleartext; the required leg must still only emit
+//! datagrams protected under its own key, after its own keys.
+//!
 //! Engine 2 (`c14_pc.rs`): two PeerConnections (DTLS-SRTP and SDES) through a harness proxy.
 
 use crate::engine::{AsyncCheck, CaseRec, Check, Ctx, Fail};
@@ -204,7 +208,16 @@ pub enum Op {
     ClearListeners,
     RegisterListeners,
     TargetKeys { to: Target, ks: u8 },
+    /// auxiliary PLAIN source `src` (srtp_required = false, own IceConn/socket) installs a rewrite bridge INTO
+    /// `to`; here `Target::Myself` means the SRTP-required transport under test (cross-mode bridge)
+    AuxBridge { src: u8, to: Target, cfg: BridgeCfg },
+    AuxClearBridge { src: u8 },
+    /// cleartext RTP arrives on the plain source (legitimate on that leg)
+    AuxRecvClearRtp { src: u8, p: Pkt, via_conn: bool },
+    AuxRecvClearRtcp { src: u8, kind: RtcpKind, ssrc_ix: u8, via_conn: bool },
 }
+
+pub const N_AUX: usize = 2;
 
 #[derive(Clone, Debug, Serialize, Deserialize)]
 pub struct Case {
@@ -511,6 +524,11 @@ enum InClass {
     WrongKey,
     Tampered,
     Reflected,
+    /// cleartext fed to a plain (srtp_required = false) source leg: legitimate there; whatever a
+    /// required leg makes of it must be protected under that leg's own key
+    PlainLeg,
+    /// cleartext RTCP fed to a plain source leg: never relayed by the bridge
+    PlainLegRtcp,
 }
 
 impl InClass {
@@ -523,6 +541,8 @@ impl InClass {
             InClass::WrongKey => "wrongkey",
             InClass::Tampered => "tampered",
             InClass::Reflected => "reflected",
+            InClass::PlainLeg => "plain-leg-rtp",
+            InClass::PlainLegRtcp => "plain-leg-rtcp",
         }
     }
 }
@@ -619,12 +639,17 @@ enum Act {
     ClearListeners,
     RegisterListeners,
     TargetKeys(Target, u8),
+    AuxBridge(usize, Target, BridgeCfg),
+    AuxClearBridge(usize),
+    AuxRecv(usize, Vec<u8>, bool),
     Nothing,
 }
 
 struct World {
     t: Node,
     targets: Vec<Node>,
+    /// plain source legs (srtp_required = false, never keyed)
+    aux: Vec<Node>,
     sinks: Sinks,
 }
 
@@ -645,9 +670,13 @@ impl World {
                 }
             }
         }
+        let mut aux = Vec::new();
+        for _ in 0..N_AUX {
+            aux.push(Node::new(false, "plain-src").await);
+        }
         let sinks = Sinks::new();
         sinks.register(&t.t);
-        World { t, targets, sinks }
+        World { t, targets, aux, sinks }
     }
 
     fn target_transport(&self, tg: Target) -> Arc<RtpTransport> {
@@ -691,6 +720,19 @@ impl World {
                     self.targets[target_ix(tg)].t.start_srtp(sut_session(1 + target_ix(tg) as u8, ks));
                 }
             }
+            Act::AuxBridge(src, tg, cfg) => {
+                let v = cfg.video_to.map(|x| self.target_transport(x));
+                apply_bridge(&self.aux[src % N_AUX].t, self.target_transport(tg), v, &cfg)
+            }
+            Act::AuxClearBridge(src) => self.aux[src % N_AUX].t.clear_bridge_rewrite(),
+            Act::AuxRecv(src, b, via_conn) => {
+                let n = &self.aux[src % N_AUX];
+                if via_conn {
+                    n.conn.receive(Bytes::from(b), n.peer_addr, buf).await;
+                } else {
+                    n.t.receive(Bytes::from(b), n.peer_addr, buf).await;
+                }
+            }
             Act::Nothing => {}
         }
     }
@@ -698,6 +740,10 @@ impl World {
     fn teardown(&self) {
         // break the Arc cycle of a self-bridge
         self.t.t.clear_bridge_rewrite();
+        for a in &self.aux {
+            a.t.clear_bridge_rewrite();
+            a.t.clear_observers();
+        }
         self.t.t.clear_observers();
         self.t.t.clear_listeners();
     }
@@ -718,6 +764,8 @@ struct Model {
     /// index of the first StartSrtp op (list order)
     first_key_op: Option<usize>,
     racing: bool,
+    /// relayed datagrams / egress callbacks on a leg that derive from cleartext fed to a plain source
+    cross_relays: std::cell::Cell<u32>,
 }
 
 impl Model {
@@ -743,6 +791,7 @@ impl Model {
             unrelated: keyset(99, 0),
             first_key_op: None,
             racing: false,
+            cross_relays: std::cell::Cell::new(0),
         }
     }
 
@@ -923,6 +972,18 @@ fn prepare(idx: usize, op: &Op, m: &mut Model, current: Option<KeySet>, racing: 
             }
             Act::TargetKeys(*to, *ks)
         }
+        Op::AuxBridge { src, to, cfg } => Act::AuxBridge(*src as usize, *to, cfg.clone()),
+        Op::AuxClearBridge { src } => Act::AuxClearBridge(*src as usize),
+        Op::AuxRecvClearRtp { src, p, via_conn } => {
+            let b = rtp_bytes(idx, p, p.marker);
+            m.ins.insert(idx, InInfo { class: InClass::PlainLeg, plain: b.clone(), rtcp: false });
+            Act::AuxRecv(*src as usize, b, *via_conn)
+        }
+        Op::AuxRecvClearRtcp { src, kind, ssrc_ix, via_conn } => {
+            let b = rtcp_bytes(idx, *kind, SSRCS[*ssrc_ix as usize % 3], false);
+            m.ins.insert(idx, InInfo { class: InClass::PlainLegRtcp, plain: b.clone(), rtcp: true });
+            Act::AuxRecv(*src as usize, b, *via_conn)
+        }
     }
 }
 
@@ -991,7 +1052,12 @@ fn judge_emitted(d: &[u8], m: &mut Model, tx_keys: &[Srtp], upto: usize) -> Resu
             _ => "after-keys",
         }
     };
-    let name_of = |i: Option<usize>, m: &Model| -> &'static str { i.and_then(|i| m.outs.get(&i)).map(|o| o.name).unwrap_or("unattributed") };
+    // a datagram that is plain RTP carrying the payload of some INPUT is a relayed packet that left in clear
+    let relayed_clear = by_clear.is_none()
+        && plain_rtp_payload(d).and_then(|pl| tag_of(&pl)).map(|t| m.ins.get(&t).map(|i| !i.rtcp).unwrap_or(false)).unwrap_or(false);
+    let name_of = |i: Option<usize>, m: &Model| -> &'static str {
+        i.and_then(|i| m.outs.get(&i)).map(|o| o.name).unwrap_or(if relayed_clear { "bridge-relay" } else { "unattributed" })
+    };
     let all_expect: Vec<Vec<u8>> = cands.iter().flat_map(|i| m.outs[i].expect.clone()).collect();
     if tx_keys.is_empty() {
         let c = classify_bad(d, m, &all_expect);
@@ -1022,7 +1088,7 @@ fn judge_emitted(d: &[u8], m: &mut Model, tx_keys: &[Srtp], upto: usize) -> Resu
         if let Some(tag) = tag_of(&pl) {
             if let Some(inp) = m.ins.get(&tag) {
                 if !inp.rtcp {
-                    return judge_relayed(tag, &pl, m, "self-bridge");
+                    return judge_relayed(tag, &pl, m, "bridge-relay");
                 }
             }
         }
@@ -1039,11 +1105,15 @@ fn judge_relayed(tag: usize, pl: &[u8], m: &Model, sink: &str) -> Result<(), Fai
     let Some(inp) = m.ins.get(&tag) else {
         return Err(Fail::new(format!("unknown-origin:{sink}"), format!("{sink} got a payload naming op {tag}, which fed nothing")));
     };
-    if inp.class != InClass::Genuine {
+    let relay_sink = matches!(sink, "bridge-relay" | "bridge-target" | "observer-egress" | "target-observer-egress");
+    if !(inp.class == InClass::Genuine || (inp.class == InClass::PlainLeg && relay_sink)) {
         return Err(Fail::new(
             format!("{}-accepted:{sink}", inp.class.name()),
             format!("{sink} received data derived from the {} input of op {tag}", inp.class.name()),
         ));
+    }
+    if inp.class == InClass::PlainLeg && matches!(sink, "bridge-relay" | "bridge-target") {
+        m.cross_relays.set(m.cross_relays.get() + 1);
     }
     let want = plain_rtp_payload(&inp.plain).unwrap_or_default();
     if want != pl {
@@ -1164,8 +1234,28 @@ fn drain_sinks(w: &mut World, m: &Model, tally: &mut Tally) -> Result<(), Fail> 
 fn nontrivial_of(ops: &[Op], rec: &CaseRec) -> bool {
     let mut keys = false;
     let (mut send_before, mut clear_after, mut bridge) = (false, false, false);
+    // list-order view of the cross-mode situation: where each plain source is bridged into, who is keyed
+    let mut aux_to: [Option<Target>; N_AUX] = [None; N_AUX];
+    let mut tkeyed = [false, true, false, true];
+    let (mut x_before, mut x_after, mut x_plain) = (false, false, false);
     for op in ops {
         match op {
+            Op::AuxBridge { src, to, .. } => {
+                bridge = true;
+                aux_to[*src as usize % N_AUX] = Some(*to);
+            }
+            Op::AuxClearBridge { src } => aux_to[*src as usize % N_AUX] = None,
+            Op::TargetKeys { to, .. } if *to != Target::Myself => tkeyed[target_ix(*to)] = true,
+            Op::AuxRecvClearRtp { src, .. } => match aux_to[*src as usize % N_AUX] {
+                Some(Target::Myself) => {
+                    if keys { x_after = true } else { x_before = true }
+                }
+                Some(t @ (Target::ReqNoKeys | Target::ReqKeys)) => {
+                    if tkeyed[target_ix(t)] { x_after = true } else { x_before = true }
+                }
+                Some(_) => x_plain = true,
+                None => {}
+            },
             Op::StartSrtp { .. } => {
                 if keys {
                     rec.label("rekey");
@@ -1205,6 +1295,15 @@ fn nontrivial_of(ops: &[Op], rec: &CaseRec) -> bool {
     }
     if !keys {
         rec.label("never-keyed");
+    }
+    if x_before {
+        rec.label("plain-src-into-required-before-keys");
+    }
+    if x_after {
+        rec.label("plain-src-into-required-after-keys");
+    }
+    if x_plain {
+        rec.label("plain-src-into-plain-target");
     }
     send_before || clear_after || bridge
 }
@@ -1261,6 +1360,7 @@ async fn run_seq(case: Case) -> (CaseRec, Check) {
     .await;
     w.teardown();
     label_strays(&rec, &w);
+    label_cross(&rec, &m);
     label_tally(&rec, &tally);
     (rec, res)
 }
@@ -1269,6 +1369,12 @@ fn label_strays(rec: &CaseRec, w: &World) {
     let n: u32 = std::iter::once(&w.t).chain(w.targets.iter()).map(|n| n.strays.load(std::sync::atomic::Ordering::Relaxed)).sum();
     if n > 0 {
         rec.label("foreign-datagram-ignored");
+    }
+}
+
+fn label_cross(rec: &CaseRec, m: &Model) {
+    if m.cross_relays.get() > 0 {
+        rec.label("cross-mode-relay-seen-on-wire");
     }
 }
 
@@ -1349,6 +1455,7 @@ async fn run_race(case: Case) -> (CaseRec, Check) {
     })();
     w.teardown();
     label_strays(&rec, &w);
+    label_cross(&rec, &m);
     label_tally(&rec, &tally);
     (rec, res)
 }
@@ -1426,6 +1533,22 @@ fn target_strategy() -> impl Strategy<Value = Target> {
     ]
 }
 
+/// mostly one source so that bridge and traffic meet
+fn aux_src() -> impl Strategy<Value = u8> {
+    prop_oneof![3 => Just(0u8), 1 => Just(1u8)]
+}
+
+/// destinations of a plain source's bridge: mostly SRTP-required legs (Myself = the transport under test)
+fn aux_target_strategy() -> impl Strategy<Value = Target> {
+    prop_oneof![
+        5 => Just(Target::Myself),
+        3 => Just(Target::ReqNoKeys),
+        2 => Just(Target::ReqKeys),
+        1 => Just(Target::PlainNoKeys),
+        1 => Just(Target::PlainKeys),
+    ]
+}
+
 fn bridge_cfg() -> impl Strategy<Value = BridgeCfg> {
     (
         any::<bool>(),
@@ -1487,6 +1610,11 @@ fn op_strategy() -> impl Strategy<Value = Op> {
         1 => Just(Op::ClearListeners),
         1 => Just(Op::RegisterListeners),
         1 => (target_strategy(), 0u8..6).prop_map(|(to, ks)| Op::TargetKeys { to, ks }),
+        3 => (aux_src(), aux_target_strategy(), bridge_cfg()).prop_map(|(src, to, cfg)| Op::AuxBridge { src, to, cfg }),
+        1 => aux_src().prop_map(|src| Op::AuxClearBridge { src }),
+        6 => (aux_src(), pkt_strategy(), any::<bool>()).prop_map(|(src, p, via_conn)| Op::AuxRecvClearRtp { src, p, via_conn }),
+        1 => (aux_src(), rtcp_kind(), 0u8..3, any::<bool>())
+            .prop_map(|(src, kind, ssrc_ix, via_conn)| Op::AuxRecvClearRtcp { src, kind, ssrc_ix, via_conn }),
     ]
 }
 
@@ -1521,7 +1649,7 @@ fn race_checker() -> AsyncCheck<Case> {
 
 pub fn run(ctx: &mut Ctx) {
     ctx.level = "exploration";
-    ctx.rule = "Engine 1: proptest-generated op lists (1..=25 ops over start_srtp x3 profiles/6 key sets, send raw RTP / raw non-RTP bytes, send_rtp, send_rtcp, send_rtcp_sync BYE, receive of cleartext RTP/RTCP, of RTP/RTCP protected by the independent model under the installed / another / the own tx / an unrelated key, bit-tampered, reflected own output, bridge_rewrite_to / bridge_rewrite_rules_to to 5 targets {required,plain} x {keyed,unkeyed} + self, clear_bridge_rewrite, clear_listeners, re-register, target start_srtp) on RtpTransport::new(conn, true) over a loopback UDP IceConn; interpreted sequentially (judged after every op) and split over 2-4 barrier-released tasks (judged at the end). Engine 2: two PeerConnections (WebRtc through a DTLS-terminating harness proxy, Srtp/SDES through a forwarding proxy) with media, a provoked NACK->RTX, RTCP and close(); every RTP/RTCP-looking datagram judged with the independent SRTP model. Non-trivial = the list has a send before keys, or a cleartext receive after keys, or a bridge op (Engine 2: every connected run); distinct by case digest.".into();
+    ctx.rule = "Engine 1: proptest-generated op lists (1..=25 ops over start_srtp x3 profiles/6 key sets, send raw RTP / raw non-RTP bytes, send_rtp, send_rtcp, send_rtcp_sync BYE, receive of cleartext RTP/RTCP, of RTP/RTCP protected by the independent model under the installed / another / the own tx / an unrelated key, bit-tampered, reflected own output, bridge_rewrite_to / bridge_rewrite_rules_to to 5 targets {required,plain} x {keyed,unkeyed} + self, clear_bridge_rewrite, clear_listeners, re-register, target start_srtp; cross-mode: 2 auxiliary plain sources RtpTransport::new(conn, false) that install / clear bridge_rewrite_to / bridge_rewrite_rules_to INTO the transport under test or a required/plain extra target and receive cleartext RTP / RTCP before and after the destination is keyed) on RtpTransport::new(conn, true) over a loopback UDP IceConn; interpreted sequentially (judged after every op) and split over 2-4 barrier-released tasks (judged at the end). Engine 2: two PeerConnections (WebRtc through a DTLS-terminating harness proxy, Srtp/SDES through a forwarding proxy) with media, a provoked NACK->RTX, RTCP and close(); every RTP/RTCP-looking datagram judged with the independent SRTP model. Non-trivial = the list has a send before keys, or a cleartext receive after keys, or a bridge op (Engine 2: every connected run); distinct by case digest.".into();
     ctx.assumptions = vec![
         "loopback UDP delivery is synchronous: after an awaited op every datagram it emitted is already queued at the capture socket".into(),
         "send_rtp may set the marker bit of the first packet; expected plaintext accepts both".into(),
@@ -1529,6 +1657,7 @@ pub fn run(ctx: &mut Ctx) {
         "a drop is never a violation (safety property); liveness of genuine traffic is only measured (labels) and checked in aggregate".into(),
         "racing mode: an emitted datagram may be under any key set some start_srtp of the list installs; a protected input is genuine if its key belongs to such a set".into(),
         "a bridge target created with srtp_required = false is a control: relaying in clear through it is legitimate".into(),
+        "cleartext fed to a plain (srtp_required = false) source leg is legitimate input of that leg; what an SRTP-required leg emits from it must open under that leg's own tx key and never precede its keys".into(),
     ];
     if let Err(e) = rs::self_test() {
         let f = Fail::new("reference-self-test", e);
